@@ -2,7 +2,8 @@
    granularity).  Model: Model/World.v; Gen/Globals.v lists every package-level variable of the
    three packages and its writers, regenerated from the sources on every run. *)
 From Coq Require Import List Bool Arith String.
-From WZ Require Import Gen.Globals Model.World Proofs.WorldProofs.
+From WZ Require Import Gen.Globals Gen.SaveEffects Model.World Proofs.WorldProofs.
+Import ListNotations.
 Import ListNotations.
 
 (* instance obligation: no process-wide mutable state (only error values, compiled regular
@@ -35,3 +36,10 @@ Theorem C07_refuted_shared_registry :
   own_notes (snd w2 1) = [1; 2] /\ own_notes (snd (wstep_shared w0 1) 1) = [1].
 Proof. exact refuted_shared_registry. Qed.
 Print Assumptions C07_refuted_shared_registry.
+
+(* Save writes the target it is handed and creates no file under a name of its own making: a name computed from the
+   target (a stem plus ".tmp", say) can be the same for two targets, and two documents saved at the same time would
+   then write one file (table regenerated from Document.Save on every run; os.CreateTemp would not be listed) *)
+Theorem C07_save_creates_only_its_target : save_other_files = [].
+Proof. vm_compute. reflexivity. Qed.
+Print Assumptions C07_save_creates_only_its_target.
